@@ -155,6 +155,38 @@ PROPS = {
         note="slot array read from struct lh_table for merging only; level B seeds injected through arc4random",
         assumptions=COMMON_ASSUMPTIONS,
     ),
+    "C11": dict(
+        level="model_checking",
+        runs=[dict(harness="c11", variant="san", shards=16)],
+        deadline=dict(quick=240, thorough=900),
+        rule="string node created with length in {0,1,7,8,9,31,32,33,100} x 3 content patterns (ASCII, embedded NUL + 0xFF, non-UTF-8), then any history of "
+             "set_string_len(pattern, n in {0,1,7,8,9,15,16,17,40,100}), the same with its allocation failed, set_string (strlen-based, argument with an embedded NUL), "
+             "and refused lengths (INT_MAX-1, INT_MAX, negative); BFS to a fix-point merged on (creation length, inline/separate, length, pattern); non-trivial = distinct state",
+        bound=dict(quick="fix-point (finite state space)", thorough="fix-point (finite state space)"),
+        states_stat="states", transitions_stat="transitions",
+        technique="explicit-state BFS to a fix-point on the real string node (ASan build, allocation fault plan), byte-string reference model",
+        claim="in every reachable state the reported length, the bytes, the terminating NUL, equality (both directions, against equal/different/shorter nodes), deep copy and the "
+              "serialization read back by the reference reader equal the model; a failed or refused set leaves the contents intact; nothing leaks across inline/separate transitions",
+        note="representation (inline vs separate) read from json_object_private.h for merging only",
+        assumptions=COMMON_ASSUMPTIONS,
+    ),
+    "C09": dict(
+        level="model_checking",
+        runs=[dict(harness="c09", variant="san", shards=16)],
+        deadline=dict(quick=240, thorough=1200),
+        rule="family E: 28 leaves (null, booleans, int64/uint64 with equal and boundary values, doubles incl. +-0, inf and two separately built NaNs, strings incl. embedded NUL, "
+             "inline and separately stored bytes) + all arrays/objects with <= 2 children over a sub-family (objects in both member orders) at two nesting levels; ALL ordered pairs "
+             "judged against value-model equality, symmetry/transitivity of the computed relation by union-find closure; deep copy of every member and of parsed trees with retained "
+             "number text: equal, same typed dump, byte-identical under all 64 flag sets, disjoint node sets, mutation of every node position in either tree, destruction of the source; "
+             "non-trivial = distinct family member",
+        bound=dict(quick="children from 8 leaves / 7 depth-1 values", thorough="children from 12 leaves / 12 depth-1 values"),
+        states_stat="cases", transitions_stat="calls",
+        technique="exhaustive enumeration of all ordered pairs of a complete tree family on the real json_object_equal / deep_copy (ASan build), value-model reference",
+        claim="equality was evaluated on every ordered pair of the family and equals value-model equality, the computed relation is closed (reflexive, symmetric, transitive); every member "
+              "was deep-copied and each node of copy and source mutated in turn without affecting the other",
+        note="value model mc/vmodel.c trusted",
+        assumptions=COMMON_ASSUMPTIONS,
+    ),
 }
 
 NOT_APPLICABLE = {}
